@@ -82,13 +82,14 @@ def choose_flags(rng, net, k):
 
 def corr_patterns(ctx):
     rng = ctx.rng
-    n_base = 6 if ctx.quick else 20
+    n_base = 4 if ctx.quick else 20
     k = 5 if ctx.quick else 10
-    specs = base_specs(ctx, n_base)
+    specs = [(sp, fl) for _, sp, fl, _ in mon.corpus()] + [(sp, None) for sp in base_specs(ctx, n_base)]
     conn, heat, red, meta, meta_red, rst = [], [], [], [], [], []
-    for sp in specs:
+    for sp, fixed_flags in specs:
         net = gen.build(sp)
-        flags = choose_flags(rng, net, k)
+        # corpus nets: the flags that matter are enumerated (the first k of a fixed list); generated nets: a seeded choice
+        flags = fixed_flags[:k] if fixed_flags else choose_flags(rng, net, k)
         base_bits = [bool(net[t].at[i, c]) for t, c, i in flags]
         for bits in itertools.product([False, True], repeat=len(flags)):
             cc.apply_flags(net, flags, bits)
